@@ -29,6 +29,11 @@ def rule_to_range(ctx, f, run):
     if b is None:
         ctx.lost("C01-G5", "IndexRange::to_range")
         return
+    # the provided method is the only one: an implementation that brings its own to_range is not covered by what is shown below
+    over = [im for im in f.impls if im.get("trait") == "backend::IndexRange" and any(n_ == "to_range" for n_, p_ in im.get("items", []))]
+    ctx.check(not over, "C01-G5", "to_range#no-override", "%s override(s) IndexRange::to_range: the ranges they hand to the backend are not the ones checked here (an open-ended read "
+              "starting past the end of the file would panic in the slice)" % ", ".join(sorted(str((im.get("self") or {}).get("s", im.get("id"))) for im in over)), b["span"],
+              detail="only the provided IndexRange::to_range builds ranges")
     T = run.taint
     cfg = T.cfg(b)
     LEN = [2]
